@@ -314,6 +314,23 @@ func runC08(c *Ctx) {
 			decideObl(c, w, z, o, rule, oblKey(o, fn, ord), lifted)
 		}
 	}
+	// the client's frame dispatcher decodes the id of every reply before anybody else sees the bytes; it runs on
+	// a background goroutine, so a panic there kills the process (its obligations are also part of C20)
+	if rv := p.Func("(*clientConn).recv"); rv == nil {
+		c.missing("O1", "(*clientConn).recv")
+	} else {
+		c.looked(fnName(rv))
+		z := w.get(rv)
+		for _, o := range z.obligationsOf() {
+			nObl++
+			rule := map[string]string{"slice": "O1", "index": "O1", "make": "O1", "alloc": "O2", "assert": "O5", "panic": "O5", "div": "O5", "call": "O6"}[o.Kind]
+			if rule == "" {
+				rule = "O1"
+			}
+			decideObl(c, w, z, o, rule, oblKey(o, rv, ord), lifted)
+		}
+	}
+
 	// the name-list and attribute decoding that package sftp's client does inline on reply bytes (ReadDir, ReadLink,
 	// RealPath, Stat …) is decoding too: its allocations are bounded by the input (shared with C20.Z2)
 	nClientAlloc := 0
@@ -350,121 +367,8 @@ func runC08(c *Ctx) {
 	c.note("decode cone: %d functions, %d obligations; %d reply-sized allocations in client decoders", len(cone), nObl, nClientAlloc)
 	c.floor("O1", 40)
 
-	// ---------- O3 frame limits ----------
-	if rp := p.Func("recvPacket"); rp == nil {
-		c.missing("O3", "recvPacket")
-	} else {
-		z := w.get(rp)
-		var lengthV ssa.Value
-		eachInstr(rp, func(in ssa.Instruction) {
-			if call, ok := in.(*ssa.Call); ok && calleeName(&call.Call) == "unmarshalUint32" {
-				for _, r := range *call.Referrers() {
-					if ex, ok := r.(*ssa.Extract); ok && ex.Index == 0 {
-						lengthV = ex
-					}
-				}
-			}
-		})
-		if lengthV == nil {
-			c.und("O3", "recvPacket frame length", p.Pos(rp.Pos()), "cannot find the decoded frame length")
-		} else {
-			lt := z.term(lengthV)
-			n := 0
-			eachInstr(rp, func(in ssa.Instruction) {
-				// the body allocation and the body read
-				isBodyRead := false
-				if call, ok := in.(*ssa.Call); ok && callIs(&call.Call, "io.ReadFull") && dominates(lengthV.(ssa.Instruction), in) {
-					isBodyRead = true
-				}
-				_, isMake := in.(*ssa.MakeSlice)
-				if isMake && !dominates(lengthV.(ssa.Instruction), in) {
-					isMake = false
-				}
-				if !isBodyRead && !isMake {
-					return
-				}
-				n++
-				up := lt.clone()
-				up.c -= 256 * 1024
-				ok1, _ := z.prove(in, []lin{up})
-				ok2, _ := z.prove(in, []lin{leq(linConst(1), lt, 0)})
-				what := "body read"
-				if isMake {
-					what = "body allocation"
-				}
-				c.check(ok1, "O3", "recvPacket "+what+" after the 256 KiB limit", p.Pos(in.Pos()), "length <= maxMsgLength on every path here", "a frame longer than 256 KiB is not refused before its "+what+" (on some path, e.g. with the allocator)")
-				c.check(ok2, "O3", "recvPacket "+what+" after the zero-length test", p.Pos(in.Pos()), "length >= 1 on every path here", "a zero-length frame is not refused before its "+what)
-			})
-			c.check(n >= 2, "O3", "recvPacket body sites", p.Pos(rp.Pos()), fmt.Sprintf("%d sites", n), "recvPacket no longer allocates and reads the body after decoding the length")
-		}
-		// O4: a failed body read is an error
-		var bodyRead *ssa.Call
-		eachInstr(rp, func(in ssa.Instruction) {
-			if call, ok := in.(*ssa.Call); ok && callIs(&call.Call, "io.ReadFull") {
-				bodyRead = call
-			}
-		})
-		if bodyRead != nil {
-			var errEx *ssa.Extract
-			for _, r := range *bodyRead.Referrers() {
-				if ex, ok := r.(*ssa.Extract); ok && ex.Index == 1 {
-					errEx = ex
-				}
-			}
-			okErr := false
-			if errEx != nil {
-				for _, r := range *errEx.Referrers() {
-					if b, ok := r.(*ssa.BinOp); ok && b.Op == token.NEQ && isNilConst(b.Y) {
-						for _, rr := range *b.Referrers() {
-							if iff, ok := rr.(*ssa.If); ok {
-								nilRet := reachFromBlock(iff.Block().Succs[0], func(in ssa.Instruction) bool {
-									r, ok := in.(*ssa.Return)
-									return ok && isNilConst(r.Results[2])
-								}, nil)
-								okErr = !nilRet
-							}
-						}
-					}
-				}
-			}
-			c.check(okErr, "O4", "short frame is an error", p.Pos(bodyRead.Pos()), "a failed body read never returns a nil error", "a frame whose body is shorter than declared can be delivered (short) with a nil error")
-		}
-	}
-	if rdp := p.FuncIn(p.Sshfx, "readPacket"); rdp == nil {
-		c.missing("O3", "sshfx readPacket")
-	} else {
-		z := w.get(rdp)
-		var lengthV ssa.Value
-		eachInstr(rdp, func(in ssa.Instruction) {
-			if call, ok := in.(*ssa.Call); ok && calleeName(&call.Call) == "unmarshalUint32" {
-				lengthV = call
-			}
-		})
-		if lengthV != nil {
-			lt := z.term(lengthV)
-			eachInstr(rdp, func(in ssa.Instruction) {
-				if ms, ok := in.(*ssa.MakeSlice); ok && dominates(lengthV.(ssa.Instruction), in) {
-					bound := lt.plus(linVar("p:maxPacketLength"), -1)
-					ok1, _ := z.prove(in, []lin{bound})
-					ok2, _ := z.prove(in, []lin{leq(linConst(5), lt, 0)})
-					_ = ms
-					c.check(ok1 && ok2, "O3", "filexfer readPacket limits", p.Pos(in.Pos()), "5 <= length <= maxPacketLength before allocating", "filexfer's readPacket allocates the body without the length limits")
-				}
-			})
-			// the error of the body read is returned
-			okRet := false
-			eachInstr(rdp, func(in ssa.Instruction) {
-				if r, ok := in.(*ssa.Return); ok && isReturn(in) {
-					for _, l := range leavesOf(r.Results[1]) {
-						if l.Kind == leafCallResult && callIs(l.Call, "io.ReadFull") && l.Idx == 1 {
-							okRet = true
-						}
-					}
-				}
-			})
-			c.check(okRet, "O4", "filexfer short frame is an error", p.Pos(rdp.Pos()), "the body read's error is returned", "filexfer's readPacket drops the error of the body read")
-		}
-	}
+	// ---------- O3/O4 frame limits ----------
+	checkFrameLimits(c, w)
 
 	// every call site of a function whose obligations were lifted establishes the requirement: those are the
 	// "call" obligations already decided above; make sure none was silently skipped
@@ -1199,4 +1103,127 @@ func checkWorkerCountBounded(c *Ctx, rule string) {
 		})
 	}
 	c.check(n >= 8, rule, "worker-count uses", "?", fmt.Sprintf("%d uses", n), fmt.Sprintf("only %d uses found", n))
+}
+
+
+// checkFrameLimits (C08.O3/O4, shared with C07 as R10): in both frame readers the declared length is bounded above
+// and below on every path before the body is allocated or read, and a short body is an error.
+func checkFrameLimits(c *Ctx, w *zworld) {
+	p := c.P
+	// ---------- O3 frame limits ----------
+	if rp := p.Func("recvPacket"); rp == nil {
+		c.missing("O3", "recvPacket")
+	} else {
+		z := w.get(rp)
+		var lengthV ssa.Value
+		eachInstr(rp, func(in ssa.Instruction) {
+			if call, ok := in.(*ssa.Call); ok && calleeName(&call.Call) == "unmarshalUint32" {
+				for _, r := range *call.Referrers() {
+					if ex, ok := r.(*ssa.Extract); ok && ex.Index == 0 {
+						lengthV = ex
+					}
+				}
+			}
+		})
+		if lengthV == nil {
+			c.und("O3", "recvPacket frame length", p.Pos(rp.Pos()), "cannot find the decoded frame length")
+		} else {
+			lt := z.term(lengthV)
+			n := 0
+			eachInstr(rp, func(in ssa.Instruction) {
+				// the body allocation and the body read
+				isBodyRead := false
+				if call, ok := in.(*ssa.Call); ok && callIs(&call.Call, "io.ReadFull") && dominates(lengthV.(ssa.Instruction), in) {
+					isBodyRead = true
+				}
+				_, isMake := in.(*ssa.MakeSlice)
+				if isMake && !dominates(lengthV.(ssa.Instruction), in) {
+					isMake = false
+				}
+				if !isBodyRead && !isMake {
+					return
+				}
+				n++
+				up := lt.clone()
+				up.c -= 256 * 1024
+				ok1, _ := z.prove(in, []lin{up})
+				ok2, _ := z.prove(in, []lin{leq(linConst(1), lt, 0)})
+				what := "body read"
+				if isMake {
+					what = "body allocation"
+				}
+				c.check(ok1, "O3", "recvPacket "+what+" after the 256 KiB limit", p.Pos(in.Pos()), "length <= maxMsgLength on every path here", "a frame longer than 256 KiB is not refused before its "+what+" (on some path, e.g. with the allocator)")
+				c.check(ok2, "O3", "recvPacket "+what+" after the zero-length test", p.Pos(in.Pos()), "length >= 1 on every path here", "a zero-length frame is not refused before its "+what)
+			})
+			c.check(n >= 2, "O3", "recvPacket body sites", p.Pos(rp.Pos()), fmt.Sprintf("%d sites", n), "recvPacket no longer allocates and reads the body after decoding the length")
+		}
+		// O4: a failed body read is an error
+		var bodyRead *ssa.Call
+		eachInstr(rp, func(in ssa.Instruction) {
+			if call, ok := in.(*ssa.Call); ok && callIs(&call.Call, "io.ReadFull") {
+				bodyRead = call
+			}
+		})
+		if bodyRead != nil {
+			var errEx *ssa.Extract
+			for _, r := range *bodyRead.Referrers() {
+				if ex, ok := r.(*ssa.Extract); ok && ex.Index == 1 {
+					errEx = ex
+				}
+			}
+			okErr := false
+			if errEx != nil {
+				for _, r := range *errEx.Referrers() {
+					if b, ok := r.(*ssa.BinOp); ok && b.Op == token.NEQ && isNilConst(b.Y) {
+						for _, rr := range *b.Referrers() {
+							if iff, ok := rr.(*ssa.If); ok {
+								nilRet := reachFromBlock(iff.Block().Succs[0], func(in ssa.Instruction) bool {
+									r, ok := in.(*ssa.Return)
+									return ok && isNilConst(r.Results[2])
+								}, nil)
+								okErr = !nilRet
+							}
+						}
+					}
+				}
+			}
+			c.check(okErr, "O4", "short frame is an error", p.Pos(bodyRead.Pos()), "a failed body read never returns a nil error", "a frame whose body is shorter than declared can be delivered (short) with a nil error")
+		}
+	}
+	if rdp := p.FuncIn(p.Sshfx, "readPacket"); rdp == nil {
+		c.missing("O3", "sshfx readPacket")
+	} else {
+		z := w.get(rdp)
+		var lengthV ssa.Value
+		eachInstr(rdp, func(in ssa.Instruction) {
+			if call, ok := in.(*ssa.Call); ok && calleeName(&call.Call) == "unmarshalUint32" {
+				lengthV = call
+			}
+		})
+		if lengthV != nil {
+			lt := z.term(lengthV)
+			eachInstr(rdp, func(in ssa.Instruction) {
+				if ms, ok := in.(*ssa.MakeSlice); ok && dominates(lengthV.(ssa.Instruction), in) {
+					bound := lt.plus(linVar("p:maxPacketLength"), -1)
+					ok1, _ := z.prove(in, []lin{bound})
+					ok2, _ := z.prove(in, []lin{leq(linConst(5), lt, 0)})
+					_ = ms
+					c.check(ok1 && ok2, "O3", "filexfer readPacket limits", p.Pos(in.Pos()), "5 <= length <= maxPacketLength before allocating", "filexfer's readPacket allocates the body without the length limits")
+				}
+			})
+			// the error of the body read is returned
+			okRet := false
+			eachInstr(rdp, func(in ssa.Instruction) {
+				if r, ok := in.(*ssa.Return); ok && isReturn(in) {
+					for _, l := range leavesOf(r.Results[1]) {
+						if l.Kind == leafCallResult && callIs(l.Call, "io.ReadFull") && l.Idx == 1 {
+							okRet = true
+						}
+					}
+				}
+			})
+			c.check(okRet, "O4", "filexfer short frame is an error", p.Pos(rdp.Pos()), "the body read's error is returned", "filexfer's readPacket drops the error of the body read")
+		}
+	}
+
 }
